@@ -23,4 +23,82 @@ def run() -> int:
     if einops_alg.wellformed("rearrange", "b (c k) l -> b c k l", {"c"}, 1):
         print("CONTROL-FAIL G11 fired on a balanced rearrange")
         bad += 1
+    bad += _program_controls()
     return bad
+
+
+_CTL = '''
+import torch
+
+
+class Owner:
+    def __init__(self, first, second, option=None):
+        for a in first:
+            self.x = a
+        for b in second:
+            self.y = a[1]            # G15: `a` leaked from the first loop
+
+    @property
+    def view(self):
+        return self._record[0]
+
+    def step(self, inputs):
+        res = self.view
+        res *= 2.0                    # G13: in-place on a property value
+        return res
+
+    def same(self):
+        limit = torch.as_tensor(self.limit)
+        return self.state == limit    # G14: exact comparison through a conversion
+
+    def kernel_pre(self, x):
+        return x
+
+    def run(self, state):
+        return self.kernel_pre(state.kernel_post_args)   # G2b
+
+    @property
+    def mode(self):
+        return self._mode
+
+    @mode.setter
+    def mode(self, value):
+        if value is None:
+            self._derived = True
+            self._mode = 0
+        else:
+            self._mode = value        # G16: the flag of the other arm is not reset
+'''
+
+
+def _program_controls() -> int:
+    """Zero-expected-count generic rules must fire on a tiny known-bad package (built under a temporary directory)."""
+    import os
+    import shutil
+    import tempfile
+    from .model import Program
+    from .framework import Ctx
+    from . import grules as G
+    tmp = tempfile.mkdtemp(prefix="sa_ctl_")
+    try:
+        os.makedirs(os.path.join(tmp, "inferno"))
+        open(os.path.join(tmp, "inferno", "__init__.py"), "w").write("")
+        open(os.path.join(tmp, "inferno", "ctl.py"), "w").write(_CTL)
+        prog = Program(tmp, min_files=1)
+        ctx = Ctx(prog, "C00")
+        funcs = list(prog.funcs)
+        G.g2b_role_tokens(ctx, funcs)
+        G.g12_dead_parameter(ctx, funcs)
+        G.g13_inplace_alias(ctx, funcs)
+        G.g14_exact_compare(ctx, funcs)
+        G.g15_leaked_loop_variable(ctx, funcs)
+        G.g16_symmetric_arms(ctx, funcs)
+        fired = {o.rule for o in ctx.findings()}
+        bad = 0
+        for r in ("G2b", "G12", "G13", "G14", "G15", "G16"):
+            if r not in fired:
+                print(f"CONTROL-FAIL {r} did not fire on the known-bad control package")
+                bad += 1
+        return bad
+    finally:
+        shutil.rmtree(tmp, ignore_errors=True)
